@@ -17,6 +17,7 @@
                      price (M), volume (M_v) or unit (1: oscillators, ratios already formed)
     band …         — centre ± k·sqrt(variance)
     quot …         — quotient of two accumulated quantities behind an exact `== 0` guard
+    cquot …        — the same quotient clamped to the documented range `[lo, hi]` by the code (`.clamp(lo, hi)`)
     sqrtQuot …     — num / sqrt(den), compared on the square (no rational value: `VExp.value` is 0 for it)
     exact q        — copied / selected value (up to the rounding of the candle source formula)
 -/
@@ -40,6 +41,9 @@ inductive VExp where
   /-- `num/den`; `guards`: quantities the code compares with 0 exactly before dividing (besides `den`);
       `alt`: what the code returns when that guard fires -/
   | quot (num den κn κd : Rat) (sc : Scale) (guards : List Rat) (alt : Option Rat)
+  /-- `(num/den).clamp(lo, hi)` behind the same guards: the code clamps the quotient to its documented range, so that the
+      rounding residue its running sums hold once the data go flat cannot take it outside -/
+  | cquot (num den κn κd : Rat) (sc : Scale) (guards : List Rat) (alt : Option Rat) (lo hi : Rat)
   /-- `num / sqrt(den)`, `0` when `den ≤ 0` (TrendStrengthIndex): compared on the square, allowance `κn·M` on `num`,
       `κd·M²` on `den` -/
   | sqrtQuot (num den κn κd : Rat)
@@ -49,11 +53,15 @@ def VExp.price (q κ : Rat) : VExp := .approx q κ .price
 def VExp.unit (q κ : Rat) : VExp := .approx q κ .unit
 def VExp.vol (q κ : Rat) : VExp := .approx q κ .vol
 
+/-- `x.clamp(lo, hi)` -/
+def qclamp (x lo hi : Rat) : Rat := if x < lo then lo else if hi < x then hi else x
+
 /-- Newton iteration is not needed: the exact model never takes the square root; `value` is only used
     for values that are rational functions of the inputs -/
 def VExp.value : VExp → Rat
   | .exact q => q | .approx q _ _ => q | .band m _ _ _ _ => m
   | .quot n d _ _ _ g alt => if d == 0 || g.any (· == 0) then alt.getD 0 else n / d
+  | .cquot n d _ _ _ g alt lo hi => if d == 0 || g.any (· == 0) then alt.getD 0 else qclamp (n / d) lo hi
   | .sqrtQuot _ _ _ _ => 0
 
 abbrev M := MAInst Rat
@@ -240,7 +248,7 @@ def vals (s : RSI) (k : Candle Rat) : Except Panic (List VExp × RSI) := do
   let (negr, n) ← maNext s.negma (smin change 0)
   let neg := negr * (-1)
   -- value = pos/(pos+neg), 0.5 when both averages are exactly zero
-  pure ([.quot pos (pos + neg) (maK s.posma) (2 * maK s.posma) .price [] (some half)],
+  pure ([.cquot pos (pos + neg) (maK s.posma) (2 * maK s.posma) .price [] (some half) 0 1],
         { s with previous_input := src, posma := p, negma := n })
 
 def sigs (s : RSI) (v : List Rat) (rnd : Rat → Rat := id) : List Action × RSI :=
@@ -542,7 +550,7 @@ def vals (s : MFI) (k : Candle Rat) : Except Panic (List VExp × MFI) := do
   let nmf := s.nmf + (neg - ln)
   -- value = 1 - 1/(1 + pmf/nmf) = pmf/(pmf+nmf); 1/2 when nmf is exactly zero (mfr := 1)
   let n : Rat := (s.period : Rat)
-  let value : VExp := .quot pmf (pmf + nmf) n (2 * n) .vol [nmf] (some half)
+  let value : VExp := .cquot pmf (pmf + nmf) n (2 * n) .vol [nmf] (some half) 0 1
   pure ([.exact (1 - s.zone), value, .exact s.zone],
         { s with window := w, last_prev_candle := last, prev_candle := k, pmf := pmf, nmf := nmf })
 
@@ -558,7 +566,7 @@ def valsF (tp : Candle Rat → Rat) (s : MFI) (k : Candle Rat) : Except Panic (L
   let pmf := s.pmf + (pos - lp)
   let nmf := s.nmf + (neg - ln)
   let n : Rat := (s.period : Rat)
-  let value : VExp := .quot pmf (pmf + nmf) n (2 * n) .vol [nmf] (some half)
+  let value : VExp := .cquot pmf (pmf + nmf) n (2 * n) .vol [nmf] (some half) 0 1
   pure ([.exact (1 - s.zone), value, .exact s.zone],
         { s with window := w, last_prev_candle := last, prev_candle := k, pmf := pmf, nmf := nmf })
 
@@ -608,7 +616,7 @@ def vals (s : CMO) (k : Candle Rat) : Except Panic (List VExp × CMO) := do
   let p := s.pos_sum + (rp - lp)
   let n := s.neg_sum + (rn - ln)
   let len : Rat := (s.cfg.period : Rat)
-  pure ([.quot (p - n) (p + n) (4 * len) (4 * len) .price [] (some 0)], { s with pos_sum := p, neg_sum := n, change := m, window := w })
+  pure ([.cquot (p - n) (p + n) (4 * len) (4 * len) .price [] (some 0) (-1) 1], { s with pos_sum := p, neg_sum := n, change := m, window := w })
 
 def sigs (s : CMO) (v : List Rat) : List Action × CMO :=
   let value := v.getD 0 0
